@@ -121,8 +121,35 @@ func (e *Error) PrettyPrint(w io.Writer, source []byte) {
 	green.Fprintln(w, e.getIndicator(line))
 }
 
+// scanYAMLLines is a split function for bufio.Scanner. It splits the input at the line breaks which YAML parser
+// counts on calculating line numbers: CR LF, LF, CR, NEL, LS and PS.
+func scanYAMLLines(data []byte, atEOF bool) (int, []byte, error) {
+	i := bytes.IndexAny(data, "\n\r\u0085\u2028\u2029")
+	if i < 0 {
+		if atEOF && len(data) > 0 {
+			return len(data), data, nil
+		}
+		return 0, nil, nil // Request more data
+	}
+	if data[i] != '\r' {
+		_, s := utf8.DecodeRune(data[i:])
+		return i + s, data[:i], nil
+	}
+	if i+1 < len(data) {
+		if data[i+1] == '\n' {
+			return i + 2, data[:i], nil
+		}
+		return i + 1, data[:i], nil
+	}
+	if atEOF {
+		return i + 1, data[:i], nil
+	}
+	return 0, nil, nil // Request more data to know whether LF follows
+}
+
 func (e *Error) getLine(source []byte) (string, bool) {
 	s := bufio.NewScanner(bytes.NewReader(source))
+	s.Split(scanYAMLLines)
 	l := 0
 	for s.Scan() {
 		l++
